@@ -3,7 +3,7 @@
 (* and symmetries (C12: kinds sp1, sp2, pair, same), lane independence (C13:      *)
 (* kind mix), and scalar-versus-batch agreement (C17: kind sv).  Rows of 64 bytes, *)
 (* t in {f32, f64}; relational events carry two result rows (r, r2).              *)
-EXTENDS MathCatalog, Json, IOUtils, TLC
+EXTENDS Accuracy, Json, IOUtils, TLC
 VARIABLES l, last
 Log == ndJsonDeserialize(IOEnv.TRACE)
 Fm(t) == IF t = "f32" THEN F32 ELSE F64
@@ -38,10 +38,33 @@ CloseOK(fn, f, x, y1, y2) ==
 (* is exactly +inf.                                                             *)
 (***************************************************************************)
 LgammaTinyNegative(f, x, r) ==
-  LET d == Dec(f, x) IN d.s = 1 /\ d.cls = "normal" /\ d.ef < Bias(f) - (IF f.M = 23 THEN 60 ELSE 508) /\ r = EncInf(f, 0)
-KnownOf(e, bad) == IF e.op = "lgamma" /\ e.k \in {"sv", "mix", "acc"} /\ bad # {} /\ bad # {-1}
-                      /\ \A i \in bad : LgammaTinyNegative(Fm(e.t), Lane(e.a, e.t, i), Lane(e.r, e.t, i))
-                   THEN "lgamma-tiny-negative" ELSE "-"
+  LET d == Dec(f, x) IN d.s = 1 /\ d.cls = "normal" /\ d.ef < Bias(f) - (IF f.M = 23 THEN 60 ELSE 508) /\ Dec(f, r).s = 0 /\ ~IsNaN(f, r)
+\* Known deviations next to the poles of gamma (DESIGN.md section 5.2/8, known_findings.json):
+\*  lgamma-near-negint : float lgamma within a few ulps of a negative integer reaches about 13 ulp (bound 8)
+\*  tgamma-pole-flush  : float tgamma within a few ulps of -34, -35, -36 flushes to zero although the exact value is >= 4 * FLT_MIN
+NearNegInt(f, x, k) == LET d == Dec(f, x)  n == RoundInt(f, x, "even") IN
+                       d.s = 1 /\ d.cls = "normal" /\ n # NaNRes /\ ~IsZeroF(f, n) /\ BLe(OrdinalDistance(f, x, n), FromInt(k))
+LgammaNearNegInt(f, x, r) == f.M = 23 /\ NearNegInt(f, x, 16) /\ IsFinite(f, r)
+TgammaPoleFlush(f, x, r) == f.M = 23 /\ NearNegInt(f, x, 16) /\ FLe(f, x, Enc(f, 1, Bias(f) + 5, <<0, 0, 6>>)) /\ IsZeroF(f, r)      \* x <= -33.5
+\*  trig-near-zero : double sin/cos/tan at arguments |x| >= 1 where the exact result is below 2^-40 (tan: or above 2^40), i.e. next to
+\*                   a multiple of pi/2: the three-term Cody-Waite reduction keeps an absolute, not a relative, accuracy
+\*                   (observed: 5 ulp for sin/cos, 29 ulp for tan; classified only while the error stays below 128 ulp)
+EntOf(e, i) == [k |-> e.xk[i + 1], s |-> e.xs[i + 1], e |-> e.xe[i + 1], m |-> Norm(SubSeq(e.xm, 8 * i + 1, 8 * i + 8))]
+TrigNearZero(fn, f, x, r, ent) ==
+  /\ fn \in {"sin", "cos", "tan"} /\ f.M = 52 /\ Dec(f, x).ef >= Bias(f) /\ ent.k = 0
+  /\ (ent.e <= -40 \/ (fn = "tan" /\ ent.e >= 40))
+  /\ AccOK("erf", f, x, r, ent, 0)                       \* within the 128 ulp that erf<double> is allowed: still a sane value
+KnownOf(e, bad) ==
+  IF e.k \notin {"sv", "mix", "acc"} \/ bad = {} \/ bad = {-1} THEN "-"
+  ELSE LET f == Fm(e.t)
+           tiny(i) == LgammaTinyNegative(f, Lane(e.a, e.t, i), Lane(e.r, e.t, i))
+           near(i) == LgammaNearNegInt(f, Lane(e.a, e.t, i), Lane(e.r, e.t, i))
+       IN
+       IF e.op = "lgamma" /\ \A i \in bad : tiny(i) THEN "lgamma-tiny-negative"
+       ELSE IF e.op = "lgamma" /\ \A i \in bad : tiny(i) \/ near(i) THEN "lgamma-near-negint"
+       ELSE IF e.op = "tgamma" /\ \A i \in bad : TgammaPoleFlush(f, Lane(e.a, e.t, i), Lane(e.r, e.t, i)) THEN "tgamma-pole-flush"
+       ELSE IF e.k = "acc" /\ \A i \in bad : TrigNearZero(e.op, f, Lane(e.a, e.t, i), Lane(e.r, e.t, i), EntOf(e, i)) THEN "trig-near-zero"
+       ELSE "-"
 Bad(e) ==
   LET f == Fm(e.t) IN
   CASE e.k = "sp1"  -> {i \in 0 .. NL(e.t) - 1 : ~SpecialOK(e.op, f, Lane(e.a, e.t, i), Lane(e.r, e.t, i))}
@@ -50,6 +73,10 @@ Bad(e) ==
     [] e.k = "same" -> {i \in 0 .. NL(e.t) - 1 : ~SameOK(f, Lane(e.r, e.t, i), Lane(e.r2, e.t, i))}
     [] e.k = "mix"  -> {i \in 0 .. NL(e.t) - 1 : ~(IF e.exact = 1 THEN SameOK(f, Lane(e.r, e.t, i), Lane(e.r2, e.t, i))
                                                     ELSE CloseOK(e.op, f, Lane(e.a, e.t, i), Lane(e.r, e.t, i), Lane(e.r2, e.t, i)))}
+    [] e.k = "acc"  -> {i \in 0 .. NL(e.t) - 1 :
+                         ~(~InScopeArg(f, Lane(e.a, e.t, i)) \/ ("b" \in DOMAIN e /\ ~InScopeArg(f, Lane(e.b, e.t, i))) \/
+                           AccOK(e.op, f, Lane(e.a, e.t, i), Lane(e.r, e.t, i),
+                                 [k |-> e.xk[i + 1], s |-> e.xs[i + 1], e |-> e.xe[i + 1], m |-> Norm(SubSeq(e.xm, 8 * i + 1, 8 * i + 8))], e.xyl[i + 1]))}
     [] e.k = "bc"   -> {i \in 0 .. NL(e.t) - 1 : ~SameOK(f, Lane(e.r, e.t, 0), Lane(e.r, e.t, i))}   \* broadcasting one value gives identical lanes (any NaN for a NaN)
     [] e.k = "sv"   -> {i \in 0 .. NL(e.t) - 1 : ~CloseOK(e.op, f, Lane(e.a, e.t, i), Lane(e.r, e.t, i), Lane(e.r2, e.t, i))}
     [] OTHER -> {-1}
